@@ -147,7 +147,10 @@ func waitUntil(d time.Duration, cond func() bool) bool {
 }
 
 func writeChunks(w io.Writer, key uint64, pos int64, n int64, pace func(done int64)) error {
-	const chunk = 3000
+	chunk := int64(3000)
+	if n > 1<<20 {
+		chunk = 256 << 10 // large histories are written in big pieces
+	}
 	buf := make([]byte, chunk)
 	var done int64
 	for done < n {
